@@ -1,7 +1,6 @@
 package sim
 
 import (
-	"context"
 	"encoding/json"
 	"fmt"
 	"io"
@@ -64,6 +63,7 @@ type Master struct {
 	streamN int
 
 	suppressed bool
+	reconAs    map[string]mesos.TaskState // per-task override of the reconciliation answer
 	rules      []*rule
 	gates      map[string]*gate
 	unacked    []*pendingUpdate
@@ -199,6 +199,7 @@ type View struct {
 
 // Wait blocks until pred holds on the master's state, re-evaluating after
 // every change. The ceiling is a harness deadline: reaching it is an InfraError.
+// pred runs under the master's lock: it must only look at the View.
 func (m *Master) Wait(what string, ceiling time.Duration, pred func(v *View) bool) error {
 	timer := time.NewTimer(ceiling)
 	defer timer.Stop()
@@ -480,7 +481,7 @@ func (m *Master) clientGone(st *stream) {
 		m.stream = nil
 		st.gone = true
 		m.offers = map[string]*liveOffer{}
-		m.recordLocked(Record{Dir: "event", Type: "DISCONNECTED", StreamID: st.id, MsgDetail: "scheduler closed the subscription connection"})
+		m.recordLocked(Record{Dir: "note", Type: "DISCONNECTED", StreamID: st.id, MsgDetail: "scheduler closed the subscription connection"})
 	}
 }
 
@@ -782,18 +783,24 @@ func (m *Master) reconcile(explicit []scheduler.Call_Reconcile_Task) {
 			Record{Type: "UPDATE", TaskIDs: []string{id}, State: st.String(), Reason: r.String(), Source: "SOURCE_MASTER",
 				AgentID: s.GetAgentID().GetValue(), ExecutorID: s.GetExecutorID().GetValue()})
 	}
+	stateOf := func(t *simTask) mesos.TaskState {
+		if st, ok := m.reconAs[t.id]; ok {
+			return st
+		}
+		return t.state
+	}
 	if len(explicit) == 0 {
 		// implicit: latest state of every non-terminal task of the framework
 		for _, id := range m.order {
 			if t := m.tasks[id]; !t.terminal && t.fwID == m.fwID {
-				send(t.id, t.agentID, t.state, t)
+				send(t.id, t.agentID, stateOf(t), t)
 			}
 		}
 		return
 	}
 	for _, e := range explicit {
 		if t := m.tasks[e.TaskID.Value]; t != nil && t.fwID == m.fwID {
-			send(t.id, t.agentID, t.state, t)
+			send(t.id, t.agentID, stateOf(t), t)
 		} else {
 			send(e.TaskID.Value, e.GetAgentID().GetValue(), mesos.TASK_LOST, nil)
 		}
@@ -809,7 +816,7 @@ func (m *Master) DropStream(abrupt bool) {
 	m.mu.Lock()
 	defer m.mu.Unlock()
 	if m.stream != nil {
-		m.recordLocked(Record{Dir: "event", Type: "DROPSTREAM", StreamID: m.stream.id, MsgDetail: fmt.Sprintf("abrupt=%v", abrupt)})
+		m.recordLocked(Record{Dir: "note", Type: "DROPSTREAM", StreamID: m.stream.id, MsgDetail: fmt.Sprintf("abrupt=%v", abrupt)})
 	}
 	m.dropStreamLocked(abrupt)
 }
@@ -849,7 +856,23 @@ func (m *Master) SetAgentDown(agentID string, down bool) {
 	}
 }
 
-// ForgetTasks empties the task table (e.g. between scenarios that share a World).
+// SetReconcileAnswer makes reconciliation report `st` for the task instead of
+// its latest state (pass nil to remove the override).
+func (m *Master) SetReconcileAnswer(taskID string, st *mesos.TaskState) {
+	m.mu.Lock()
+	defer m.mu.Unlock()
+	if m.reconAs == nil {
+		m.reconAs = map[string]mesos.TaskState{}
+	}
+	if st == nil {
+		delete(m.reconAs, taskID)
+	} else {
+		m.reconAs[taskID] = *st
+	}
+}
+
+// ForgetTerminalTasks drops terminal rows from the task table (between
+// scenarios that share a World).
 func (m *Master) ForgetTerminalTasks() {
 	m.mu.Lock()
 	defer m.mu.Unlock()
@@ -864,4 +887,3 @@ func (m *Master) ForgetTerminalTasks() {
 	m.order = keep
 }
 
-var _ = context.Background
